@@ -5,6 +5,7 @@ package main
 import (
 	"fmt"
 	"go/constant"
+	"go/token"
 	"go/types"
 	"math/big"
 	"strings"
@@ -30,6 +31,28 @@ type Env struct {
 
 // specLoad reads from the environment's heap and records the type ranges of the cells read.
 func (g *Gen) specLoad(env *Env, t types.Type, obj, off string) *Val {
+	if _, _, isInt := intInfo(t); isInt {
+		for _, cc := range g.cellConst {
+			if cc[0] != obj || cc[1] != off {
+				continue
+			}
+			h := env.heap["Int"]
+			if h != g.H0["Int"] {
+				// the case split fixes the cell in the entry state: in a later state the value is used only after
+				// showing that the cell is unchanged there (once per heap)
+				key := h + "|" + obj + "|" + off
+				if g.cellConstOK == nil {
+					g.cellConstOK = map[string]bool{}
+				}
+				if !g.cellConstOK[key] {
+					g.cellConstOK[key] = true
+					g.oblige("constcell", fmt.Sprintf("(= %s %s)", sel2(h, obj, off), cc[2]), token.NoPos,
+						"the cell fixed by the contract's case split still holds its value in this state", nil)
+				}
+			}
+			return scalar("Int", cc[2], t)
+		}
+	}
 	v := g.loadFrom(env.heap, t, obj, off)
 	if env.side != nil {
 		terms := v.S
@@ -795,6 +818,23 @@ func (g *Gen) specBin(env *Env, e *Expr) *Val {
 	}
 	switch op {
 	case "+", "-", "*":
+		// fold numerals (concrete counters of unrolled loops make weights like pow2(64*l + 8*w) literal)
+		if isNum(a.S[0]) && isNum(b.S[0]) {
+			x, okx := new(big.Int).SetString(a.S[0], 10)
+			y, oky := new(big.Int).SetString(b.S[0], 10)
+			if okx && oky {
+				r := new(big.Int)
+				switch op {
+				case "+":
+					r.Add(x, y)
+				case "-":
+					r.Sub(x, y)
+				case "*":
+					r.Mul(x, y)
+				}
+				return scalar("Int", smtInt(r), nil)
+			}
+		}
 		return scalar("Int", fmt.Sprintf("(%s %s %s)", op, a.S[0], b.S[0]), nil)
 	case "/":
 		return scalar("Int", fmt.Sprintf("(div %s %s)", a.S[0], b.S[0]), nil)
